@@ -714,24 +714,45 @@ def run_image_corr(rep, rng, tier):
 # ------------------------------------------------------------------------------------------------ FAT32 BAD range
 def run_bad_range(rep):
     """The top of the FAT32 range (tables reaching cluster numbers 0x0FFFFFF0..): the extracted model cannot zero a 1 GiB table,
-    so the BAD-range branch of format_fat is tied to the code through the statement of C06_image_fat / C06_image_free_space:
-    the real library formats a sparse 128 GiB device and the raw entries / FS-info words must be the ones the theorems give."""
+    so the BAD-range branch of format_fat is tied to the code through the statements of C06_image_fat / C06_image_free_space:
+    the real library formats a sparse 128 GiB device; (direct check) the FS-info free count must equal the number of free
+    entries among the data clusters of the table (counted over the whole sparse table) and what stats() reports;
+    (correspondence) the raw entries / FS-info words must be the ones the theorems give."""
     BAD0, BAD1 = 0x0FFFFFF0, 0x10000000
-    for ts in (270532604, 270532598, 270532590):
+    for ts in (270532604, 270532603, 270532599, 270532598, 270532590):
         fatpos = 8 * 512
         first = BAD0 - 12
         sc = ["dev %d 0" % (ts * 512), "wlog 0", "format 512 %d 512 32 - 1 - - -" % ts, "dump 0 512",
               "dump %d %d" % (fatpos + 4 * first, 4 * (BAD1 - first)), "dump %d 12" % fatpos, "dump %d 8" % (512 + 488),
-              "mount 1 0 lossy", "stats", "unmount"]
+              "pages", "mount 1 0 lossy", "stats", "unmount"]
         rs = vlib.run_scripts([sc])[0]
         rep.count()
-        replay = {"script": sc, "theorem_or_correspondence": "C06_image_fat / C06_image_free_space (BAD range 0x0FFFFFF0.. of format_fat) vs src/table.rs format_fat"}
-        if any(r.kind != "ok" for r in rs[:7]):
-            rep.violation("[bad range] format of a %d-sector FAT32 volume: %s" % (ts, [(r.kind, r.payload[:40]) for r in rs if r.kind != "ok"][:2]),
-                          replay, nofail=not any(r.kind == "panic" for r in rs)); continue
+        replay = {"script": sc, "theorem_or_correspondence": "C06_image_fat / C06_image_free_space (BAD range 0x0FFFFFF0.. of format_fat) vs src/table.rs format_fat, src/fs.rs format_volume"}
+        if any(r.kind != "ok" for r in rs[:10]):
+            rep.violation("[bad range] format / mount / stats of a %d-sector FAT32 volume: %s" % (ts, [(r.kind, r.payload[:40]) for r in rs if r.kind != "ok"][:2]),
+                          {"script": sc}); continue
         g = [int(x) for x in vlib.model_run("c06g", rs[3].payload + "\n")[0].split(" ")]
         total, spf = g[7], g[6]
         entries = spf * 512 // 4
+        fsw = bytes.fromhex(rs[6].payload)
+        fs_free, fs_next = le(fsw, 0, 4), le(fsw, 4, 4)
+        # ---- direct: count the free entries 2 .. total+1 over the whole (sparse) table: only materialised pages can hold non-zero entries
+        t = rs[7].payload.split(" ") if rs[7].payload else []
+        nonfree = 0
+        for i in range(0, len(t) - 1, 2):
+            off, pg = int(t[i]), bytes.fromhex(t[i + 1])
+            for j in range(0, 4096, 4):
+                a = off + j
+                if fatpos <= a < fatpos + spf * 512:
+                    x = (a - fatpos) // 4
+                    if 2 <= x < total + 2 and le(pg, j, 4) & 0x0FFFFFFF != 0:
+                        nonfree += 1
+        table_free = total - nonfree
+        st = [int(x) for x in rs[9].payload.split(" ")]
+        if not (fs_free == table_free == st[2]) or st[1] != total:
+            rep.violation("[bad range] fresh FAT32 volume of %d sectors (%d clusters): FS-info says %d free, the table has %d free data-cluster "
+                          "entries, stats reports total %d free %d" % (ts, total, fs_free, table_free, st[1], st[2]), {"script": sc}); continue
+        # ---- correspondence with the theorems
         raw = bytes.fromhex(rs[4].payload)
         got = [le(raw, 4 * i, 4) & 0x0FFFFFFF for i in range(BAD1 - first)]
         exp = []
@@ -744,17 +765,16 @@ def run_bad_range(rep):
                 exp.append(0x0FFFFFF7 if BAD0 <= x < BAD1 else 0x0FFFFFFF)          # spare_val
         bad = [(first + i, hex(a), hex(e)) for i, (a, e) in enumerate(zip(got, exp)) if e is not None and a != e]
         head = bytes.fromhex(rs[5].payload)
-        fsw = bytes.fromhex(rs[6].payload)
+        nbad = max(0, total + 2 - BAD0)
         if bad or le(head, 0, 4) != 0x0FFFFFF8 or le(head, 4, 4) != 0xFFFFFFFF or le(head, 8, 4) & 0x0FFFFFFF != 0x0FFFFFFF \
-           or le(fsw, 0, 4) != total - 1 or le(fsw, 4, 4) != 3:
-            rep.violation("[bad range] %d sectors (%d clusters): FAT entries / FS-info differ from C06_image_fat: %s" % (ts, total, bad[:3]),
-                          replay, nofail=True); continue
+           or fs_free != total - 1 - nbad or fs_next != 3:
+            rep.violation("[bad range] %d sectors (%d clusters): FAT entries / FS-info (free %d next %d) differ from C06_image_fat / "
+                          "C06_image_free_space: %s" % (ts, total, fs_free, fs_next, bad[:3]), replay, nofail=True); continue
         rep.cov["traces_validated_against_impl"] += 1
         rep.distinct(("badrange", ts))
-        nbad = max(0, total + 2 - BAD0)
         rep.cov.setdefault("bad_range_volumes", []).append(
             {"total_sectors": ts, "clusters": total, "table_entries": entries, "data_clusters_marked_bad": nbad,
-             "fsinfo_free": le(fsw, 0, 4), "free_entries_in_table": total - 1 - nbad, "stats": rs[8].payload})
+             "fsinfo_free = free_entries_in_table = stats": fs_free})
 
 
 # ------------------------------------------------------------------------------------------------ entry
